@@ -21,8 +21,10 @@ from .. import tables_c17
 from ..tables import TablesError
 
 PID = "C17"
-PROOF_FILES = ["theories/Props/C17.v", "theories/Checker/TetMesh.v", "theories/Proofs/TetMeshBase.v",
-               "theories/Proofs/TetMeshBox.v", "theories/Proofs/TetMeshCyl.v", "theories/Proofs/TetMeshIco.v"]
+PROOF_FILES = ["theories/Props/C17.v", "theories/Checker/TetMesh.v", "theories/Proofs/TetMeshPoly.v",
+               "theories/Proofs/TetMeshBase.v", "theories/Proofs/TetMeshSym.v", "theories/Proofs/TetMeshBox.v",
+               "theories/Proofs/TetMeshCyl.v", "theories/Proofs/TetMeshIcoKey.v", "theories/Proofs/TetMeshIcoPure.v",
+               "theories/Proofs/TetMeshIco.v", "theories/Proofs/TetMeshHelpers.v"]
 TETTABLES = cm.COQ / "theories" / "Gen" / "TetTables.v"
 
 HEADER_MODEL = """From Coq Require Import List ZArith PrimFloat.
@@ -64,6 +66,27 @@ def hint_for(n, radius, rng):
     if n <= 3:
         return c / rng.uniform(0.3, 2.9)
     return c / (n - rng.uniform(0.2, 0.8))
+
+
+def exact_tolerance_pairs():
+    """(r, t): binary64 r in [1, 2) with fl(1e-14 * r) == t exactly, t a multiple of 2^-52, so that r + t is exact and
+    `x - r > tolerance` / `x - r <= tolerance` sit exactly ON the class boundary for x = r + t (mh, radius > 1)."""
+    out = []
+    for k in range(64, 91):
+        t = k * 2.0 ** -52
+        r0 = t / 1e-14
+        cands = [r0]
+        for _ in range(4):
+            cands.append(math.nextafter(cands[-1], 0.0))
+        c = r0
+        for _ in range(4):
+            c = math.nextafter(c, 4.0)
+            cands.append(c)
+        for r in cands:
+            if 1.0 < r < 2.0 and 1e-14 * r == t and (r + t) - r == t:
+                out.append((r, t))
+                break
+    return out
 
 
 def gen_cases(rng, tier):
@@ -125,6 +148,16 @@ def gen_cases(rng, tier):
         ax = rng.randrange(3)
         sz[ax] = math.nextafter(m, math.inf) if rng.random() < 0.5 else m * (1 + 2 ** -rng.randint(40, 52))
         add("box", "near_tolerance", size=sz)
+    # exactly ON the tolerance (half_central == relative_tolerance): decides `<=` against `<`
+    pairs = exact_tolerance_pairs()
+    for (r, t) in (pairs if thorough else pairs[:6]):
+        ax = rng.randrange(3)
+        sz = [2 * r, 2 * r, 2 * r]
+        sz[ax] = 2 * (r + t)
+        add("box", "exact_tolerance", size=sz)
+        sz2 = [2 * (r + t)] * 3
+        sz2[ax] = 2 * r
+        add("box", "exact_tolerance", size=sz2)
     # --- cylinder: the three classes and their boundaries, n from 3 to fine
     ns = [3, 4, 5, 8, 17, 64] + ([200, 701] if thorough else [])
     ratios = [("long", lambda: rng.uniform(1.05, 30)), ("short", lambda: 1 / rng.uniform(1.05, 30)),
@@ -142,6 +175,11 @@ def gen_cases(rng, tier):
                     if not (1e-2 <= length <= 1e2):
                         length = clampd(length)
                 add("cylinder", cname, radius=r, length=length, resolution_hint=hint_for(n, r, rng))
+    # exactly ON the class boundaries: top_z - radius == tolerance and radius - top_z == tolerance
+    for (r, t) in (pairs if thorough else pairs[:6]):
+        n = rng.choice([3, 4, 7])
+        add("cylinder", "exact_boundary", radius=r, length=2 * (r + t), resolution_hint=hint_for(n, r, rng))
+        add("cylinder", "exact_boundary", radius=r + t, length=2 * r, resolution_hint=hint_for(n, r + t, rng))
     add("cylinder", "long", radius=1e-2, length=1e2, resolution_hint=1.0)
     add("cylinder", "short", radius=1e2, length=1e-2, resolution_hint=20.0)
     add("cylinder", "medium_exact", radius=0.5, length=1.0, resolution_hint=0.1)
@@ -223,9 +261,52 @@ def model_expr(case, res):
         n = max(3, math.ceil(2.0 * math.pi * float(a["radius"]) / float(a["resolution_hint"])))
         if nv not in (2 + 2 * n + 1, 2 + 2 * n + 2, 2 + 2 * n + 1 + n):
             return None
-        rim = "; ".join(f"({cm.fhex(V[3 * (2 + 2 * i)])}, {cm.fhex(V[3 * (2 + 2 * i) + 1])})" for i in range(n))
-        return f"run_cyl {cm.fhex(a['radius'])} {cm.fhex(a['length'])} [{rim}]"
+        # cos / sin of the rim angles: computed here with the same numpy calls as the code, NOT read
+        # back from the implementation's vertices (the model multiplies by the radius itself)
+        import numpy as np
+        angle_step = 2.0 * np.pi / n
+        trig = "; ".join(f"({cm.fhex(float(np.cos(angle_step * i)))}, {cm.fhex(float(np.sin(angle_step * i)))})"
+                         for i in range(n))
+        return f"run_cyl {cm.fhex(a['radius'])} {cm.fhex(a['length'])} [{trig}]"
+    if f == "sphere":
+        return f"run_sphere {cm.fhex(a['radius'])} {int(a['order'])}%nat"
+    if f == "ellipsoid":
+        return "run_ellipsoid " + " ".join(cm.fhex(x) for x in a["radii"]) + f" {int(a['order'])}%nat"
+    if f == "capsule":
+        import numpy as np
+        radius = float(a["radius"])
+        n = int(np.clip(2.0 * np.pi * radius / float(a["resolution_hint"]), 3.0, 706.0))
+        nc = n // 2
+        theta_step = 0.5 * np.pi / nc
+        phi_step = 2.0 * np.pi / n
+        circ = "; ".join(f"({cm.fhex(float(np.sin(0.5 * np.pi - i * theta_step)))}, "
+                         f"{cm.fhex(float(np.cos(0.5 * np.pi - i * theta_step)))})" for i in range(nc))
+        ring = "; ".join(f"({cm.fhex(float(np.cos(j * phi_step)))}, {cm.fhex(float(np.sin(j * phi_step)))})"
+                         for j in range(n))
+        return f"run_capsule {cm.fhex(radius)} {cm.fhex(a['height'])} [{circ}] [{ring}]"
     return None
+
+
+def helpers_expr(res):
+    V, T = res["vertices"], res["tetrahedra"]
+    vs = "; ".join(f"({cm.fhex(V[3 * i])}, {cm.fhex(V[3 * i + 1])}, {cm.fhex(V[3 * i + 2])})" for i in range(len(V) // 3))
+    ts = "; ".join(f"({T[4 * i]}, {T[4 * i + 1]}, {T[4 * i + 2]}, {T[4 * i + 3]})%Z" for i in range(len(T) // 4))
+    return f"run_helpers [{vs}] [{ts}]"
+
+
+def compare_helpers(case, res, out):
+    """model of _mesh_processing.py on the implementation's own mesh: volumes and AABBs bit for bit, the centre of mass
+    (BLAS / pairwise summation order not modelled) within 1e-12 * extent"""
+    vols, aabbs, com = out
+    d = []
+    if not same_floats(vols, res.get("volumes", [])):
+        d.append("tetrahedral_mesh_volumes differs from the model")
+    if not same_floats(flatten(aabbs), res.get("aabbs", [])):
+        d.append("tetrahedral_mesh_aabbs differs from the model")
+    ext = max([abs(x) for x in res["vertices"]] + [1e-300])
+    if len(com) != 3 or any(not math.isfinite(float(x)) or abs(float(x) - y) > 1e-12 * ext for x, y in zip(com, res.get("com", [1e999] * 3))):
+        d.append(f"center_of_mass_tetrahedral_mesh {res.get('com')} differs from the model {com}")
+    return d
 
 
 def same_floats(xs, ys):
@@ -340,13 +421,19 @@ def run(tier, seed, replay=None):
     # 4. Coq: model runs (correspondence) and certificates
     m_exprs, m_idx = [], []
     c_exprs, c_idx = [], []
+    h_exprs, h_idx = [], []
+    vlimit = 1500 if tier == "quick" else 3000
+    hlimit = 200 if tier == "quick" else 1300
     for i, (c, r, v) in enumerate(zip(cases, results, verdicts)):
         if "exc" in r or v.get("oracle_error"):
             continue
         e = model_expr(c, r)
-        if e is not None and r["shapes"][0][0] <= 1500:
+        if e is not None and r["shapes"][0][0] <= vlimit:
             m_exprs.append(e)
             m_idx.append(i)
+        if "volumes" in r and 0 < r["shapes"][1][0] <= hlimit:
+            h_exprs.append(helpers_expr(r))
+            h_idx.append(i)
         if "cert" in v:
             c_exprs.append(cert_expr(v["cert"], r))
             c_idx.append(i)
@@ -384,6 +471,20 @@ def run(tier, seed, replay=None):
                     validated += 1
     except RuntimeError as e:
         R.corr_broken.append(f"model evaluation failed: {str(e)[:500]}")
+    helpers_validated = 0
+    try:
+        outs = cm.coq_eval_lines(PID, HEADER_MODEL, h_exprs, tag="helpers", per_file=max(1, len(h_exprs) // 16 + 1))
+        for i, o in zip(h_idx, outs):
+            d = compare_helpers(cases[i], results[i], parse_coq_value(o))
+            if d:
+                diffs += 1
+                if len(R.corr_broken) < 6:
+                    R.corr_broken.append(f"TetMeshProc model vs _mesh_processing on make_tetrahedral_{cases[i]['factory']}{cases[i]['args']}: {d}")
+            else:
+                helpers_validated += 1
+    except RuntimeError as e:
+        R.corr_broken.append(f"helper model evaluation failed: {str(e)[:500]}")
+    R.cov["helper_traces_validated"] = helpers_validated
     cert_true = 0
     try:
         outs = cm.coq_eval_lines(PID, HEADER_CERT, c_exprs, tag="cert", per_file=max(1, len(c_exprs) // 16 + 1))
